@@ -54,6 +54,10 @@ impl Driver {
     }
 
     fn violation(&mut self, what: &str, detail: Value, signature: Option<&str>) {
+        // once the pool service has panicked with a recorded defect of the pool, what the dead pool shows
+        // afterwards belongs to that finding
+        let panic_sig = crate::world::service_panic_signature();
+        let signature: Option<&str> = match (&signature, &panic_sig) { (None, Some((s, _))) => Some(*s), _ => signature };
         if what.starts_with(if self.mode_c12 { "C13" } else { "C12" }) {
             self.w.stat("other_property_violation_not_reported_in_this_mode");
             return;
@@ -796,6 +800,11 @@ impl Driver {
         }
         for _ in 0..steps {
             if self.fatal || self.w.viol.len() > 200 {
+                break;
+            }
+            if crate::world::service_panic_signature().is_some() {
+                // the pool no longer follows the chain: nothing further to learn from this history
+                self.w.stat("histories_ended_by_a_pool_service_panic");
                 break;
             }
             let tip = self.w.node.tip().number();
